@@ -180,6 +180,7 @@ func init() {
 		ruleAreaFlag,
 		ruleVertexProvenance,
 		ruleCompactionIndex(inPkgs("simplify."), 4),
+		ruleCompose(simplifySpecs, 60),
 	)
 
 	register("C15",
